@@ -163,21 +163,6 @@ theorem log_complete_copy (cfg : Cfg) (fp : Str) (src : Src) (to : Str) (mk : Op
 
 /-! ### uninstall -/
 
-/-- the full reversibility statement for one logged file: after `uninstall` the logged path is gone -/
-def uninstall_full_statement : Prop :=
-  ∀ (cwd path : Str) (fs : FS) (m d t : Nat), isAbs path = true → keyOfAbs path ≠ [] →
-    fs.get (keyOfAbs path) = some (.file m d t) →
-    (uninstall cwd [path] fs).get (keyOfAbs path) = none
-
-/-- `uninstall` reads the log back with `line.strip()`: a destination whose name ends in white space is
-logged, but a different (non-existent) path is deleted and the file stays -/
-theorem uninstall_counterexample : ¬ uninstall_full_statement := by
-  intro h
-  have := h "/b".toList "/d/x ".toList [(["d", "x "].map String.toList, .file 0o644 1 1), (["d"].map String.toList, .dir 0o755)]
-    0o644 1 1 (by decide) (by decide) (by decide)
-  revert this
-  decide
-
 theorem get_del_self (fs : FS) (k : Key) : (fs.del k).get k = none := by
   induction fs with
   | nil => rfl
@@ -189,11 +174,10 @@ theorem get_del_self (fs : FS) (k : Key) : (fs.del k).get k = none := by
     · have : FS.del ((k', n) :: t) k = (k', n) :: FS.del t k := by simp [FS.del, he]
       rw [this]; simp only [FS.get, he, if_false]; exact ih
 
-/-- reversibility for one logged file whose name neither starts with `#` nor carries leading/trailing
-white space: uninstall deletes exactly that key -/
-theorem uninstall_partial (cwd path : Str) (fs : FS) (m d t : Nat) (habs : isAbs path = true)
-    (hk : keyOfAbs path ≠ []) (hstrip : strip path = path)
-    (hn : fs.get (keyOfAbs path) = some (.file m d t)) :
+/-- reversibility for one logged file, whatever its name (white space at either end included):
+uninstall deletes exactly that key -/
+theorem uninstall_removes_logged_file (cwd path : Str) (fs : FS) (m d t : Nat) (habs : isAbs path = true)
+    (hk : keyOfAbs path ≠ []) (hn : fs.get (keyOfAbs path) = some (.file m d t)) :
     (uninstall cwd [path] fs).get (keyOfAbs path) = none := by
   have hhead : path.head? ≠ some '#' := by
     unfold isAbs at habs
@@ -201,10 +185,13 @@ theorem uninstall_partial (cwd path : Str) (fs : FS) (m d t : Nat) (habs : isAbs
   have hne : path ≠ [] := by intro e; subst e; simp [isAbs] at habs
   have hkey : keyOf cwd path = keyOfAbs path := by
     unfold keyOf join; simp [habs]
-  simp only [uninstall, List.foldl_cons, List.foldl_nil, uninstallLine, hhead, if_false, hstrip, hne, hkey, hk, hn]
+  simp only [uninstall, List.foldl_cons, List.foldl_nil, uninstallLine, hhead, if_false, hne, hkey, hk, hn]
   exact get_del_self fs _
 
-example : strip "/d e s t/ü x".toList = "/d e s t/ü x".toList := by decide
+/-- non-vacuity, on the name that used to survive uninstall (trailing space) -/
+example : (uninstall "/b".toList ["/d/x ".toList]
+    [(["d", "x "].map String.toList, .file 0o644 1 1), (["d"].map String.toList, .dir 0o755)]).get
+      (["d", "x "].map String.toList) = none := by decide
 
 /-! ### histories on a concrete plan (sanity instances of reversibility and idempotence) -/
 
